@@ -441,7 +441,7 @@ CaseResult run_ef(const RunCtx &ctx, TapeReader &t, unsigned size_hint) {
     o.allow_giant = ctx.mode != "mem";
     o.pow2_span_edge = true;
     o.ef_bimodal_often = ctx.mode == "mem";
-    if (ctx.mode == "mem" && sizeof(K) == 8 && t.chance(1, 3)) o.force_bimodal = true; // C17 runs few cases: a fixed share of them takes the long-superblock paths
+    if (ctx.mode == "mem" && sizeof(K) == 8 && t.chance(1, 5)) o.force_bimodal = true; // C17 runs few cases: a fixed share of them takes the long-superblock paths
     o.ef_bimodal = true; // also under AddressSanitizer (C17): the long-superblock branches of the select supports allocate and index arrays
     o.exact_segments = true;
     std::vector<K> keys = gen_keys<K>(t, o, meta);
